@@ -18,3 +18,13 @@ Definition matches (r : outcome) (o : observed) : bool :=
       && (cs_group st =? o_group o) && bytes_eqb (cs_alpn st) (o_alpn o)
   | Abort a => negb (o_complete o) && (a =? o_alert o)
   end.
+
+(* what the connection reports after Handshake returned (completed or not) against Model/NegotiateReport.v *)
+Definition reports (r : conn_state) (o : observed) : bool :=
+  (cs_suite r =? o_suite o) && (cs_group r =? o_group o) && bytes_eqb (cs_alpn r) (o_alpn o).
+
+(* the property's own reading, on the observation alone: nothing reported that the wire hello did not offer *)
+Definition reported_on_wire (w : wire_view) (o : observed) : bool :=
+  ((o_suite o =? 0) || memN (o_suite o) (w_suites w))
+  && ((o_group o =? 0) || memN (o_group o) (w_shares w) || memN (o_group o) (w_groups w))
+  && (match o_alpn o with [] => true | _ => memB (o_alpn o) (w_alpn w) end).
